@@ -275,6 +275,10 @@ structure WF (a : Alloc) (p : PtrVal) : Prop where
 def PtrVal.toPtr (p : PtrVal) : GcArena.Ptr :=
   if p.weak then .weak p.obj else .strong p.obj
 
+/-- `Gc::ptr_eq` / `GcWeak::ptr_eq` (`GcPtr::addr_eq`, i.e. `ptr::addr_eq`): same allocation and
+    same address; the metadata of wide pointers (length, vtable) and every tag are ignored. -/
+def samePtr (p q : PtrVal) : Bool := p.obj == q.obj && p.off == q.off
+
 /-- Size of the pointer in machine words (`size_of::<Gc<T, K>>() / size_of::<usize>()`). -/
 def PtrVal.words (p : PtrVal) : Nat :=
   match p.carried with
